@@ -399,6 +399,9 @@ func (d *Dynamic) ensureScroll() {
 	}
 	d.scroll.top = d.cursor
 	d.scroll.offset = 0
+	// A scroll which has not been applied yet (a wheel event earlier in the
+	// same frame) would move the item out of view again
+	d.scroll.pending = 0
 }
 
 var _ vxfw.Widget = &Dynamic{}
